@@ -1040,6 +1040,19 @@ func (ex *Exec) next(st *State, fr *Frame, v *ssa.Next) {
 			}
 		}
 	}
+	inLoop := false
+	for _, lp := range ex.loopInfo(fr.Fn).Loops {
+		if lp.Body[v.Block()] {
+			inLoop = true
+		}
+	}
+	if m != nil && (fr.Peeled[v.Block()] || !inLoop) {
+		// the first Next of a range (a peeled loop, or a `for range` whose body always leaves: no loop in the CFG):
+		// the map yields an element iff it is not empty
+		if ms := ex.mapState(st, m); ms != nil && ms.Len != nil {
+			ex.G.facts[okT.Name] = append(ex.G.facts[okT.Name], Iff(okT, Gt(ms.Len, IntC(0))))
+		}
+	}
 	ex.set(fr, v, &TupleV{E: []Value{okT, kv, vv}})
 	if m != nil {
 		// "map.next": one step of a range over a map (a0 = the map; ar0 = ok, ar1 = key, ar2 = value)
